@@ -1,27 +1,41 @@
 #!/bin/bash
 # usage: tools/mutants.sh <ID> <mutants-file>
-# mutants-file: lines  name|file|python-regex|replacement   (first match only, applied to a scratch worktree)
+# mutants-file: lines  name|file|python-regex|replacement   (first match only, applied to a scratch worktree);
+#               a line starting with "+|" adds another edit to the preceding mutant.
 # Runs devcheck for each mutant and prints CAUGHT / MISSED.
 ID=$1; MF=$2
 WT=/tmp/mut-$ID
 export GOFLAGS=-mod=mod GOPROXY=off GOSUMDB=off GOTOOLCHAIN=local
 git -C /repo worktree remove --force $WT 2>/dev/null
 git -C /repo worktree add -q --detach $WT HEAD || exit 1
-while IFS='|' read -r name file pat rep; do
-  [ -z "$name" ] && continue
-  case "$name" in \#*) continue;; esac
-  git -C $WT checkout -q -- .
-  python3 - "$WT/$file" "$pat" "$rep" <<'P' || { echo "$name: PATTERN-NOT-FOUND"; continue; }
-import re,sys
-p,pat,rep=sys.argv[1:4]
-s=open(p).read()
-n=re.subn(pat,rep.replace('\\n','\n'),s,count=1,flags=re.S)
-if n[1]!=1: sys.exit(1)
-open(p,'w').write(n[0])
+python3 - "$MF" > /tmp/mut-$ID.list <<'P'
+import sys,json
+cur=None;out=[]
+for l in open(sys.argv[1]):
+    l=l.rstrip('\n')
+    if not l or l.startswith('#'): continue
+    name,f,pat,rep=l.split('|',3)
+    if name=='+': cur['edits'].append([f,pat,rep])
+    else:
+        cur={'name':name,'edits':[[f,pat,rep]]}; out.append(cur)
+for m in out: print(json.dumps(m))
 P
-  ( cd $WT && go build ./modules/... ) >/dev/null 2>&1 || { echo "$name: DOES-NOT-COMPILE"; continue; }
-  out=$(VERIF_REPO=$WT /verif/tools/devcheck.sh $ID quick 2>&1 | tail -4)
-  if echo "$out" | grep -q "^VIOLATION"; then echo "$name: CAUGHT  $(echo "$out" | grep -E '^\s+\[' | head -2 | tr '\n' ' ' | cut -c1-160)"; else echo "$name: MISSED  $(echo "$out" | tail -1)"; fi
-done < "$MF"
+while read -r line; do
+  name=$(echo "$line" | python3 -c "import sys,json;print(json.load(sys.stdin)['name'])")
+  git -C $WT checkout -q -- .
+  echo "$line" | python3 -c "
+import re,sys,json
+m=json.load(sys.stdin)
+for f,pat,rep in m['edits']:
+    p='$WT/'+f
+    s=open(p).read()
+    n=re.subn(pat,rep.replace('\\\\n','\n').replace('\\\\t','\t'),s,count=1,flags=re.S)
+    if n[1]!=1: sys.exit(1)
+    open(p,'w').write(n[0])
+" || { echo "$name: PATTERN-NOT-FOUND"; continue; }
+  berr=$( cd $WT && go build ./modules/... 2>&1 ) || { echo "$name: DOES-NOT-COMPILE $(echo "$berr" | tail -2 | tr '\n' ' ')"; continue; }
+  out=$(VERIF_REPO=$WT /verif/tools/devcheck.sh $ID quick 2>&1 | tail -6)
+  if echo "$out" | grep -q "^VIOLATION"; then echo "$name: CAUGHT  $(echo "$out" | grep -E '^\s+\[' | head -3 | tr '\n' ' ' | cut -c1-260)"; else echo "$name: MISSED  $(echo "$out" | tail -1)"; fi
+done < /tmp/mut-$ID.list
 git -C /repo worktree remove --force $WT
-rm -rf /verif/work/harness-alt-$ID-* /verif/work/$ID-alt*
+rm -rf /verif/work/harness-alt-$ID-* /verif/work/$ID-alt* /tmp/mut-$ID.list
